@@ -138,8 +138,14 @@ def oracle(scn, obs, ref, schedule):
             trip = [t for t in tl[:i_s] if t[0] == "put" and t[1] == "sig" and t[2]]
             if not puts0 or not trip:
                 continue
-            # the release that ended this suspension is the last put(0) before the resume
-            t_rel = puts0[-1][4]
+            # the release that ended this suspension is the FIRST update after the trip that satisfies the resume
+            # condition (later ones change nothing: the suspender is no longer tripped)
+            t_trip = trip[-1][4]
+            i_trip = max(i for i, t in enumerate(tl[:i_s]) if t[0] == "put" and t[1] == "sig" and t[2])
+            after_trip = [t for t in tl[i_trip:i_r] if t[0] == "put" and t[1] == "sig" and not t[2]]
+            if not after_trip:
+                continue
+            t_rel = after_trip[0][4]
             t_res = tl[i_r][3]
             if abs(t_res - (t_rel + sleep)) > 1e-6 and t_res < t_rel + sleep - 1e-6:
                 out.append(("released-before-sleep-elapsed", f"signal went back at t={t_rel}, sleep={sleep}, resumed at t={t_res}"))
